@@ -11,6 +11,7 @@ from hypothesis import strategies as st
 
 from vlib.core import Sub
 from vlib import gens
+from checks.c20parts._walkguard import guard
 
 ASSUMPTIONS = [
     'sound names and wave paths contain no double quote, backslash, CR or LF (the writer emits them verbatim inside '
@@ -408,7 +409,7 @@ def execute(desc, ctx):
     # A separate set of objects is walked for the constructor check: walking touches the lazily created stack
     # properties, and export() must be exercised on Sounds nobody has looked at yet.
     for w, d in zip(wants, sounds):
-        probe = _guard(ctx, 'constructors', walk, build(d), ('stop', 'update', 'start'))
+        probe = guard(ctx, 'constructors', walk, build(d), ('stop', 'update', 'start'))
         if probe is None:
             return
         dd = diff(w, probe)
@@ -420,7 +421,7 @@ def execute(desc, ctx):
         snd.export(buf)
     text = buf.getvalue()
     for w, b in zip(wants, built):
-        after = _guard(ctx, 'no_mutation', walk, b, ('update', 'start', 'stop'))
+        after = guard(ctx, 'no_mutation', walk, b, ('update', 'start', 'stop'))
         if after is None:
             return
         dd = diff(w, after)
@@ -435,7 +436,7 @@ def execute(desc, ctx):
         got = parsed.get(w['name'].casefold())
         if got is None:
             continue
-        got_w = _guard(ctx, 'roundtrip', walk, got)
+        got_w = guard(ctx, 'roundtrip', walk, got)
         if got_w is None:
             return
         dd = diff(w, got_w)
@@ -452,18 +453,6 @@ def execute(desc, ctx):
     text2 = buf2.getvalue()
     ctx.check(text2 == text, 'second_export_identical',
               f'second-generation text differs:\n--- first\n{text}\n--- second\n{text2}')
-
-
-def _guard(ctx, clause, fn, *args):
-    """Run a harness walker over an object handed out by the code under test.  The walkers are exercised on every
-    case of the unchanged tree, so an exception inside one means a field of the object has an unexpected type or
-    shape: that is a broken clause of the round trip, not a harness error."""
-    try:
-        return fn(*args)
-    except (TypeError, AttributeError, KeyError, IndexError, ValueError) as exc:
-        ctx.fail(clause, f'the value could not be walked: {type(exc).__name__}: {exc} '
-                         f'(a field of the object under test has an unexpected type)', exc_type=type(exc).__name__)
-        return None
 
 
 SUBS = [
